@@ -690,6 +690,10 @@ def least_right_singular_vectors(
     V0 = V[:, sort_indexes[0:n]]
     V1 = V[:, sort_indexes[n:]]
 
+    # A matrix with more columns than rows has less singular values than
+    # right singular vectors: the missing ones are equal to zero
+    S = np.concatenate([S, np.zeros(V.shape[0] - S.size)])
+
     return V0, V1, S[sort_indexes[n:]]
 
 
